@@ -146,10 +146,17 @@ Section Writer.
     then (if nonempty namespace then namespace ++ [46] else []) ++ g_short gi
     else namespace.
 
+  (* the header line of a group: none for the own group of a command whose section name is
+     empty (the parser's own group: its entries belong to the global section, which has no
+     header); every other group gets its header, even one with the empty name *)
+  Definition section_header (is_cmd_group : bool) (sname : str) : list wline :=
+    if is_cmd_group && negb (nonempty sname) then [] else [WSection sname].
+
   Definition doc_group (is_cmd_group : bool) (g : group) (namespace : str) (r : rt) : res (list wline) :=
     bind (doc_opts (grp_opts g) r) (fun ow =>
       Ok (if snd ow
-          then WSection (group_section_name is_cmd_group g namespace) :: fst ow ++ (if incc then [] else [WBlank])
+          then section_header is_cmd_group (group_section_name is_cmd_group g namespace) ++
+               fst ow ++ (if incc then [] else [WBlank])
           else [])).
 
   Fixpoint doc_groups (gs : list group) (first : bool) (namespace : str) (r : rt) : res (list wline) :=
@@ -254,16 +261,22 @@ Section Writer.
     cbn [fst snd]. rewrite render_doc_app, render_doc_nonempty. reflexivity.
   Qed.
 
+  Lemma render_section_header own sn :
+    render_doc (section_header own sn)
+    = if own && negb (nonempty sn) then [] else s2l "[" ++ sn ++ s2l "]" ++ [10].
+  Proof.
+    unfold section_header. destruct (own && negb (nonempty sn)); [reflexivity|].
+    unfold render_doc. cbn [map concat render_wline]. rewrite app_nil_r. reflexivity.
+  Qed.
+
   Lemma write_group_doc first g ns r :
     write_group orc incd comd incc first g ns r = rmap render_doc (doc_group first g ns r).
   Proof.
     unfold write_group, doc_group. rewrite write_opts_doc. unfold rmap, bind.
     destruct (doc_opts (grp_opts g) r) as [[body any]| |]; try reflexivity.
     cbn [fst snd]. destruct any; [|reflexivity].
-    f_equal. unfold render_doc at 2. cbn [map concat render_wline].
-    fold (render_doc (body ++ (if incc then [] else [WBlank]))).
-    rewrite render_doc_app. unfold group_section_name.
-    rewrite <- !app_assoc. do 4 f_equal. destruct incc; reflexivity.
+    f_equal. rewrite !render_doc_app, render_section_header.
+    f_equal. f_equal. destruct incc; reflexivity.
   Qed.
 
   (* ---------------- write_command: one-step unfolding with named local loops *)
@@ -842,10 +855,13 @@ Section RoundTrip.
     match doc_opt orc incd comd incc o r with Ok d => d | _ => [] end.
   Definition group_any (g : group) (r : rt) : bool :=
     existsb (fun o => has_lines (opt_lines o r)) (grp_opts g).
-  Definition group_lines (sn : str) (g : group) (r : rt) : list wline :=
+  Definition group_lines (own : bool) (sn : str) (g : group) (r : rt) : list wline :=
     if group_any g r
-    then WSection sn :: flat_map (fun o => opt_lines o r) (grp_opts g) ++ (if incc then [] else [WBlank])
+    then section_header own sn ++ flat_map (fun o => opt_lines o r) (grp_opts g) ++ (if incc then [] else [WBlank])
     else [].
+  (* the lines of a group given with its "own group of its command" mark and its section name *)
+  Definition own_lines (r : rt) (q : bool * (str * group)) : list wline :=
+    group_lines (fst q) (fst (snd q)) (snd (snd q)) r.
 
   (* the groups the writer visits, in order, each with its section name *)
   Fixpoint groups_named (gs : list group) (first : bool) (ns : str) : list (str * group) :=
@@ -865,8 +881,47 @@ Section RoundTrip.
     end.
   Definition ini_groups (root : command) : list (str * group) := ini_groups_cmd (cmd_depth root) root [].
 
+  (* the same list, every group marked: is it the own group of its command (the writer's
+     is_cmd_group)? *)
+  Fixpoint groups_named_own (gs : list group) (first : bool) (ns : str) : list (bool * (str * group)) :=
+    match gs with
+    | [] => []
+    | g :: rest =>
+      (if g_hidden (grp_info g) then [] else [(first, (group_section_name first g ns, g))])
+      ++ groups_named_own rest false ns
+    end.
+  Fixpoint ini_groups_cmd_own (fuel : nat) (c : command) (ns : str) : list (bool * (str * group)) :=
+    match fuel with
+    | O => []
+    | S f =>
+      groups_named_own (cmd_groups c) true ns ++
+      flat_map (fun sc => if c_hidden (cmd_info sc) then [] else ini_groups_cmd_own f sc (sub_namespace ns sc))
+               (cmd_subs c)
+    end.
+  Definition ini_groups_own (root : command) : list (bool * (str * group)) :=
+    ini_groups_cmd_own (cmd_depth root) root [].
+
+  Lemma groups_named_own_snd : forall gs first ns,
+    map snd (groups_named_own gs first ns) = groups_named gs first ns.
+  Proof.
+    induction gs as [|g gs IH]; intros first ns; [reflexivity|].
+    cbn [groups_named_own groups_named]. rewrite map_app, IH.
+    destruct (g_hidden (grp_info g)); reflexivity.
+  Qed.
+  Lemma ini_groups_cmd_own_snd : forall f c ns,
+    map snd (ini_groups_cmd_own f c ns) = ini_groups_cmd f c ns.
+  Proof.
+    induction f as [|f IH]; intros c ns; [reflexivity|].
+    cbn [ini_groups_cmd_own ini_groups_cmd]. rewrite map_app, groups_named_own_snd. f_equal.
+    induction (cmd_subs c) as [|sc l IHl]; [reflexivity|].
+    cbn [flat_map]. rewrite map_app, IHl. f_equal.
+    destruct (c_hidden (cmd_info sc)); [reflexivity|apply IH].
+  Qed.
+  Lemma ini_groups_own_snd root : map snd (ini_groups_own root) = ini_groups root.
+  Proof. apply ini_groups_cmd_own_snd. Qed.
+
   Definition ini_doc (root : command) (r : rt) : list wline :=
-    flat_map (fun p : str * group => group_lines (fst p) (snd p) r) (ini_groups root).
+    flat_map (own_lines r) (ini_groups_own root).
 
   (* ---------------- doc_of_ini = Ok doc -> doc = ini_doc *)
   Lemma doc_opts_lines : forall os r d any,
@@ -886,7 +941,7 @@ Section RoundTrip.
 
   Lemma doc_group_lines first g ns r d :
     doc_group orc incd comd incc first g ns r = Ok d ->
-    d = group_lines (group_section_name first g ns) g r.
+    d = group_lines first (group_section_name first g ns) g r.
   Proof.
     unfold doc_group, bind. intros H.
     destruct (doc_opts orc incd comd incc (grp_opts g) r) as [[b any]| |] eqn:E; try discriminate H.
@@ -896,18 +951,18 @@ Section RoundTrip.
 
   Lemma doc_groups_lines r ns : forall gs first d,
     doc_groups orc incd comd incc gs first ns r = Ok d ->
-    d = flat_map (fun p : str * group => group_lines (fst p) (snd p) r) (groups_named gs first ns).
+    d = flat_map (own_lines r) (groups_named_own gs first ns).
   Proof.
     induction gs as [|g gs IH]; intros first d H.
     - injection H as <-. reflexivity.
-    - cbn [doc_groups] in H. unfold bind in H. cbn [groups_named]. rewrite flat_map_app.
+    - cbn [doc_groups] in H. unfold bind in H. cbn [groups_named_own]. rewrite flat_map_app.
       destruct (g_hidden (grp_info g)).
       + destruct (doc_groups orc incd comd incc gs false ns r) as [b| |] eqn:Eb; try discriminate H.
         injection H as <-. rewrite (IH false b Eb). reflexivity.
       + destruct (doc_group orc incd comd incc first g ns r) as [a| |] eqn:Ea; try discriminate H.
         destruct (doc_groups orc incd comd incc gs false ns r) as [b| |] eqn:Eb; try discriminate H.
         injection H as <-. rewrite (IH false b Eb), (doc_group_lines _ _ _ _ _ Ea).
-        cbn [flat_map fst snd]. rewrite app_nil_r. reflexivity.
+        cbn [flat_map]. unfold own_lines at 1. cbn [fst snd]. rewrite app_nil_r. reflexivity.
   Qed.
 
   Lemma flat_map_flat_map {A B C} (f : B -> list C) (g : A -> list B) (l : list A) :
@@ -916,18 +971,18 @@ Section RoundTrip.
     induction l as [|x l IH]; [reflexivity|]. cbn [flat_map]. rewrite flat_map_app, IH. reflexivity.
   Qed.
 
-  Lemma doc_subs_lines (rec : command -> str -> res (list wline)) (F : command -> str -> list (str * group)) r ns :
+  Lemma doc_subs_lines (rec : command -> str -> res (list wline)) (F : command -> str -> list (bool * (str * group))) r ns :
     forall l d,
-    (forall sc n d, In sc l -> rec sc n = Ok d -> d = flat_map (fun p : str * group => group_lines (fst p) (snd p) r) (F sc n)) ->
+    (forall sc n d, In sc l -> rec sc n = Ok d -> d = flat_map (own_lines r) (F sc n)) ->
     doc_subs rec ns l = Ok d ->
-    d = flat_map (fun p : str * group => group_lines (fst p) (snd p) r)
+    d = flat_map (own_lines r)
                  (flat_map (fun sc => if c_hidden (cmd_info sc) then [] else F sc (sub_namespace ns sc)) l).
   Proof.
     induction l as [|sc l IH]; intros d Hrec H.
     - injection H as <-. reflexivity.
     - cbn [doc_subs] in H. unfold bind in H. cbn [flat_map]. rewrite flat_map_app.
       assert (Hrec' : forall sc n d, In sc l -> rec sc n = Ok d ->
-                d = flat_map (fun p : str * group => group_lines (fst p) (snd p) r) (F sc n)).
+                d = flat_map (own_lines r) (F sc n)).
       { intros sc' n d' Hin. apply Hrec. right. exact Hin. }
       destruct (c_hidden (cmd_info sc)).
       + destruct (doc_subs rec ns l) as [b| |] eqn:Eb; try discriminate H.
@@ -940,15 +995,15 @@ Section RoundTrip.
 
   Lemma doc_command_lines r : forall f c ns d,
     doc_command orc incd comd incc f c ns r = Ok d ->
-    d = flat_map (fun p : str * group => group_lines (fst p) (snd p) r) (ini_groups_cmd f c ns).
+    d = flat_map (own_lines r) (ini_groups_cmd_own f c ns).
   Proof.
     induction f as [|f IH]; intros c ns d H.
     - injection H as <-. reflexivity.
-    - cbn [doc_command] in H. unfold bind in H. cbn [ini_groups_cmd]. rewrite flat_map_app.
+    - cbn [doc_command] in H. unfold bind in H. cbn [ini_groups_cmd_own]. rewrite flat_map_app.
       destruct (doc_groups orc incd comd incc (cmd_groups c) true ns r) as [a| |] eqn:Ea; try discriminate H.
       destruct (doc_subs _ ns (cmd_subs c)) as [b| |] eqn:Eb; try discriminate H.
       injection H as <-. rewrite (doc_groups_lines _ _ _ _ _ Ea).
-      rewrite (doc_subs_lines _ (ini_groups_cmd f) r ns _ b (fun sc n d _ => IH sc n d) Eb). reflexivity.
+      rewrite (doc_subs_lines _ (ini_groups_cmd_own f) r ns _ b (fun sc n d _ => IH sc n d) Eb). reflexivity.
   Qed.
 
   Lemma doc_of_ini_lines root r d :
@@ -1034,16 +1089,22 @@ Section RoundTrip.
   Qed.
 
   Lemma ini_doc_ok root r :
-    (forall sn g, In (sn, g) (ini_groups root) -> group_any g r = true -> section_name_ok sn) ->
+    (forall own sn g, In (own, (sn, g)) (ini_groups_own root) -> group_any g r = true ->
+       (own = true /\ sn = []) \/ section_name_ok sn) ->
     (forall sn g o, In (sn, g) (ini_groups root) -> In o (grp_opts g) -> opt_ok o r) ->
     Forall wline_ok (ini_doc root r).
   Proof.
-    intros Hsec Hopt. unfold ini_doc. apply Forall_flat_map_intro. intros [sn g] Hin. cbn [fst snd].
+    intros Hsec Hopt. unfold ini_doc. apply Forall_flat_map_intro. intros [own [sn g]] Hin.
+    unfold own_lines. cbn [fst snd].
     unfold group_lines. destruct (group_any g r) eqn:Eany; [|constructor].
-    constructor.
-    - exact (Hsec sn g Hin Eany).
+    apply Forall_app. split.
+    - unfold section_header. destruct (own && negb (nonempty sn)) eqn:Ene; [constructor|].
+      constructor; [|constructor].
+      destruct (Hsec own sn g Hin Eany) as [[-> ->]|Hok]; [discriminate Ene|exact Hok].
     - apply Forall_app. split.
-      + apply Forall_flat_map_intro. intros o Ho. apply opt_lines_ok. exact (Hopt sn g o Hin Ho).
+      + apply Forall_flat_map_intro. intros o Ho. apply opt_lines_ok.
+        apply (Hopt sn g o); [|exact Ho]. rewrite <- ini_groups_own_snd.
+        apply (in_map snd) in Hin. exact Hin.
       + destruct incc; repeat constructor.
   Qed.
 
@@ -1117,25 +1178,186 @@ Section RoundTrip.
     rewrite IH by exact Hos. unfold opt_entries. destruct (opt_lines o r); [reflexivity|discriminate Ho].
   Qed.
 
+  (* the header lines of the document: one per written group, except for own groups of
+     commands with the empty section name *)
+  Definition has_header (r : rt) (q : bool * (str * group)) : bool :=
+    group_any (snd (snd q)) r && negb (fst q && negb (nonempty (fst (snd q)))).
+
   Lemma groups_sections r : forall gl,
-    doc_sections (flat_map (fun p : str * group => group_lines (fst p) (snd p) r) gl)
-    = map fst (filter (fun p : str * group => group_any (snd p) r) gl).
+    doc_sections (flat_map (own_lines r) gl)
+    = map (fun q : bool * (str * group) => fst (snd q)) (filter (has_header r) gl).
   Proof.
-    induction gl as [|[sn g] gl IH]; [reflexivity|].
-    cbn [flat_map filter fst snd]. rewrite doc_sections_app, IH. unfold group_lines.
-    destruct (group_any g r); [|reflexivity].
-    rewrite doc_sections_cons, (doc_sections_no_header _ (group_body_no_header g r)). reflexivity.
+    induction gl as [|[own [sn g]] gl IH]; [reflexivity|].
+    cbn [flat_map filter]. rewrite doc_sections_app, IH. unfold own_lines at 1, has_header at 2. cbn [fst snd].
+    unfold group_lines.
+    destruct (group_any g r); [|reflexivity]. cbn [andb].
+    rewrite doc_sections_app, (doc_sections_no_header _ (group_body_no_header g r)), app_nil_r.
+    unfold section_header. destruct (own && negb (nonempty sn)); reflexivity.
   Qed.
 
-  Lemma groups_entries r : forall gl cur,
-    sec_entries (flat_map (fun p : str * group => group_lines (fst p) (snd p) r) gl) cur
-    = flat_map (fun p : str * group => map (pair (fst p)) (flat_map (fun o => opt_entries o r) (grp_opts (snd p)))) gl.
+  (* [placed r cur gl]: every written group of [gl] without a header line stands where the
+     reader's current section is the global one (named ""), [cur] being the current
+     section before the lines of [gl] *)
+  Fixpoint placed (r : rt) (cur : str) (gl : list (bool * (str * group))) : Prop :=
+    match gl with
+    | [] => True
+    | q :: rest =>
+      if group_any (snd (snd q)) r
+      then (fst q && negb (nonempty (fst (snd q))) = true -> cur = []) /\ placed r (fst (snd q)) rest
+      else placed r cur rest
+    end.
+
+  Lemma groups_entries r : forall gl cur, placed r cur gl ->
+    sec_entries (flat_map (own_lines r) gl) cur
+    = flat_map (fun p : str * group => map (pair (fst p)) (flat_map (fun o => opt_entries o r) (grp_opts (snd p))))
+               (map snd gl).
   Proof.
-    induction gl as [|[sn g] gl IH]; intros cur; [reflexivity|].
-    cbn [flat_map fst snd]. unfold group_lines. destruct (group_any g r) eqn:E.
-    - cbn [app sec_entries]. rewrite sec_entries_no_header by apply group_body_no_header.
-      rewrite group_body_entries, IH. reflexivity.
-    - rewrite (group_not_written_entries g r E). cbn [app map]. apply IH.
+    induction gl as [|[own [sn g]] gl IH]; intros cur Hp; [reflexivity|].
+    cbn [flat_map map fst snd]. cbn [placed fst snd] in Hp. unfold own_lines at 1. cbn [fst snd].
+    unfold group_lines. destruct (group_any g r) eqn:E.
+    - destruct Hp as [Hcur Hp]. unfold section_header.
+      destruct (own && negb (nonempty sn)) eqn:Eh.
+      + assert (Hsn : sn = []).
+        { destruct sn; [reflexivity|]. destruct own; discriminate Eh. }
+        rewrite (Hcur eq_refl) in *. subst sn. cbn [app].
+        rewrite sec_entries_no_header by apply group_body_no_header.
+        rewrite group_body_entries, IH by exact Hp. reflexivity.
+      + cbn [app sec_entries]. rewrite sec_entries_no_header by apply group_body_no_header.
+        rewrite group_body_entries, IH by exact Hp. reflexivity.
+    - rewrite (group_not_written_entries g r E). cbn [app map]. apply IH. exact Hp.
+  Qed.
+
+  (* the condition on the section names: the name of a written group is well formed, or the
+     group is the own group of its command, its name is empty and no header line precedes it
+     in the document (every written group before it has the empty name, too, hence is of the
+     same kind) - it is written without a header and its entries land in the global
+     section.  This is the case of the root command's own group, the first group written. *)
+  Definition section_names_ok (gl : list (bool * (str * group))) (r : rt) : Prop :=
+    forall pre own sn g post, gl = pre ++ (own, (sn, g)) :: post -> group_any g r = true ->
+      section_name_ok sn \/
+      (own = true /\ sn = [] /\
+       forall own' sn' g', In (own', (sn', g')) pre -> group_any g' r = true -> sn' = []).
+
+  (* the stronger condition: all written groups have well-formed (non-empty) names *)
+  Lemma section_names_ok_all gl r :
+    (forall sn g, In (sn, g) (map snd gl) -> group_any g r = true -> section_name_ok sn) ->
+    section_names_ok gl r.
+  Proof.
+    intros H pre own sn g post -> Hany. left. apply (H sn g); [|exact Hany].
+    rewrite map_app. apply in_or_app. right. left. reflexivity.
+  Qed.
+
+  Lemma section_names_ok_all_root root r :
+    (forall sn g, In (sn, g) (ini_groups root) -> group_any g r = true -> section_name_ok sn) ->
+    section_names_ok (ini_groups_own root) r.
+  Proof. intros H. apply section_names_ok_all. rewrite ini_groups_own_snd. exact H. Qed.
+
+  (* the typical case: first the own group of the root command, with the empty name,
+     all other written groups with well-formed names *)
+  Lemma section_names_ok_first g0 gl r :
+    (forall sn g, In (sn, g) (map snd gl) -> group_any g r = true -> section_name_ok sn) ->
+    section_names_ok ((true, ([], g0)) :: gl) r.
+  Proof.
+    intros H pre own sn g post E Hany. destruct pre as [|p pre]; cbn [app] in E.
+    - injection E as <- <- <- <-. right. split; [reflexivity|]. split; [reflexivity|]. intros own' sn' g' [].
+    - injection E as <- ->. left. apply (H sn g); [|exact Hany].
+      rewrite map_app. apply in_or_app. right. left. reflexivity.
+  Qed.
+
+  (* the groups of the root start with the root command's own group, under the empty name *)
+  Lemma ini_groups_own_root_first root : exists rest,
+    ini_groups_own root =
+    (if g_hidden (grp_info (cmd_group root)) then [] else [(true, ([], cmd_group root))]) ++ rest.
+  Proof.
+    unfold ini_groups_own. destruct root as [ci g args subs]. cbn [cmd_depth ini_groups_cmd_own].
+    unfold cmd_groups. cbn [cmd_group]. destruct g as [gi os gs]. cbn [group_depth group_list groups_named_own].
+    rewrite <- app_assoc. eexists. reflexivity.
+  Qed.
+  Lemma ini_groups_root_first root : exists rest,
+    ini_groups root =
+    (if g_hidden (grp_info (cmd_group root)) then [] else [([], cmd_group root)]) ++ rest.
+  Proof.
+    unfold ini_groups. destruct root as [ci g args subs]. cbn [cmd_depth ini_groups_cmd].
+    unfold cmd_groups. cbn [cmd_group]. destruct g as [gi os gs]. cbn [group_depth group_list groups_named].
+    rewrite <- app_assoc. eexists. reflexivity.
+  Qed.
+
+  (* so: the own group of the root may be written, whatever else is written must have
+     well-formed names *)
+  Lemma section_names_ok_root root r :
+    g_hidden (grp_info (cmd_group root)) = false ->
+    (forall sn g, In (sn, g) (tl (ini_groups root)) -> group_any g r = true -> section_name_ok sn) ->
+    section_names_ok (ini_groups_own root) r.
+  Proof.
+    intros Hh H. destruct (ini_groups_own_root_first root) as [rest E].
+    rewrite Hh in E. cbn [app] in E. rewrite E. apply section_names_ok_first.
+    rewrite <- ini_groups_own_snd, E in H. cbn [map tl] in H. exact H.
+  Qed.
+
+  Lemma section_names_ok_In gl r own sn g :
+    section_names_ok gl r -> In (own, (sn, g)) gl -> group_any g r = true ->
+    (own = true /\ sn = []) \/ section_name_ok sn.
+  Proof.
+    intros H Hin Hany. apply in_split in Hin. destruct Hin as (pre & post & E).
+    destruct (H pre own sn g post E Hany) as [Hok|[-> [-> _]]]; [right; exact Hok|left; split; reflexivity].
+  Qed.
+
+  Lemma section_names_ok_placed r : forall gl cur,
+    (forall pre own sn g post, gl = pre ++ (own, (sn, g)) :: post -> group_any g r = true ->
+       own && negb (nonempty sn) = true ->
+       cur = [] /\ forall own' sn' g', In (own', (sn', g')) pre -> group_any g' r = true -> sn' = []) ->
+    placed r cur gl.
+  Proof.
+    induction gl as [|[own [sn g]] gl IH]; intros cur H; [exact I|].
+    cbn [placed fst snd]. destruct (group_any g r) eqn:E.
+    - split.
+      + intros Eh. exact (proj1 (H [] own sn g gl eq_refl E Eh)).
+      + apply IH. intros pre own' sn' g' post -> Hany Eh.
+        destruct (H ((own, (sn, g)) :: pre) own' sn' g' post eq_refl Hany Eh) as [_ Hpre].
+        split.
+        * apply (Hpre own sn g); [left; reflexivity|exact E].
+        * intros own2 sn2 g2 Hin. apply (Hpre own2 sn2 g2); [right; exact Hin].
+    - apply IH. intros pre own' sn' g' post -> Hany Eh.
+      destruct (H ((own, (sn, g)) :: pre) own' sn' g' post eq_refl Hany Eh) as [Hcur Hpre].
+      split; [exact Hcur|]. intros own2 sn2 g2 Hin. apply (Hpre own2 sn2 g2). right. exact Hin.
+  Qed.
+
+  Lemma section_names_placed gl r : section_names_ok gl r -> placed r [] gl.
+  Proof.
+    intros H. apply section_names_ok_placed. intros pre own sn g post E Hany Eh.
+    split; [reflexivity|].
+    destruct (H pre own sn g post E Hany) as [[Hne _]|[_ [_ Hpre]]]; [|exact Hpre].
+    destruct sn; [congruence|]. destruct own; discriminate Eh.
+  Qed.
+
+  (* sections of the file: the global one, then the non-empty names in order of first
+     appearance - which is the same as for all names, the global section's included *)
+  Lemma uniq_filter (p : str -> bool) : forall l, filter p (uniq l) = uniq (filter p l).
+  Proof.
+    induction l as [|x l IH]; [reflexivity|]. cbn [uniq filter].
+    destruct (p x) eqn:Ex.
+    - cbn [uniq]. f_equal. rewrite <- IH.
+      generalize (uniq l). intros L. induction L as [|y L IHL]; [reflexivity|].
+      cbn [filter]. destruct (str_eqb y x) eqn:Eyx; cbn [negb].
+      + destruct (p y); [cbn [filter]; rewrite Eyx; cbn [negb]|]; exact IHL.
+      + cbn [filter]. destruct (p y); [cbn [filter]; rewrite Eyx; cbn [negb]; f_equal|]; exact IHL.
+    - rewrite <- IH.
+      generalize (uniq l). intros L. induction L as [|y L IHL]; [reflexivity|].
+      cbn [filter]. destruct (str_eqb_spec y x) as [->|Hne]; cbn [negb].
+      + rewrite Ex. exact IHL.
+      + cbn [filter]. destruct (p y); [f_equal|]; exact IHL.
+  Qed.
+
+  Lemma uniq_global_sections r (gl : list (bool * (str * group))) :
+    uniq ([] :: map (fun q : bool * (str * group) => fst (snd q)) (filter (has_header r) gl))
+    = uniq ([] :: map fst (filter (fun p : str * group => group_any (snd p) r) (map snd gl))).
+  Proof.
+    cbn [uniq]. f_equal. rewrite !uniq_filter. f_equal.
+    induction gl as [|[own [sn g]] gl IH]; [reflexivity|].
+    cbn [map filter fst snd]. unfold has_header at 1. cbn [fst snd].
+    destruct (group_any g r); cbn [andb]; [|exact IH].
+    destruct own, sn as [|c sn']; cbn [nonempty negb andb map filter fst snd str_eqb]; try exact IH;
+      f_equal; exact IH.
   Qed.
 
   Lemma forget_entries_of s ents :
@@ -1196,7 +1418,7 @@ Section RoundTrip.
   (* Target 3 *)
   Theorem C12_file_roundtrip : forall root r text,
     write_ini orc incd comd incc root r = Ok text ->
-    (forall sn g, In (sn, g) (ini_groups root) -> group_any g r = true -> section_name_ok sn) ->
+    section_names_ok (ini_groups_own root) r ->
     (forall sn g o, In (sn, g) (ini_groups root) -> In o (grp_opts g) -> opt_ok o r) ->
     exists file,
       read_ini text = Ok file /\
@@ -1212,14 +1434,17 @@ Section RoundTrip.
     destruct (C12_writer_is_lines_ok orc incd comd incc root r text Hw) as (doc & Hdoc & ->).
     apply doc_of_ini_lines in Hdoc. subst doc.
     exists (doc_file (ini_doc root r)). split; [|split; [|split; [|split]]].
-    - apply C12_read_rendered, ini_doc_ok; assumption.
+    - apply C12_read_rendered, ini_doc_ok; [|exact Hopt].
+      intros own sn g. apply section_names_ok_In. exact Hsec.
     - reflexivity.
     - reflexivity.
     - unfold doc_file, file_of. rewrite map_map. cbn [fst]. rewrite map_id.
-      unfold ini_doc. rewrite groups_sections. reflexivity.
+      unfold ini_doc. rewrite groups_sections, uniq_global_sections, ini_groups_own_snd. reflexivity.
     - intros s es Hin. unfold doc_file, file_of in Hin. apply in_map_iff in Hin.
       destruct Hin as (s' & [= <- <-] & _).
-      rewrite forget_entries_of, forget_doc_entries. unfold ini_doc. rewrite groups_entries.
+      rewrite forget_entries_of, forget_doc_entries. unfold ini_doc.
+      rewrite groups_entries by (apply section_names_placed; exact Hsec).
+      rewrite ini_groups_own_snd.
       apply (filter_section_entries (fun p : str * group => flat_map (fun o => opt_entries o r) (grp_opts (snd p)))).
   Qed.
   (* every entry an option contributes carries the option's INI name *)
@@ -1250,7 +1475,7 @@ Section RoundTrip.
      entries of the options with INI name nm in the groups written under that section *)
   Corollary C12_file_roundtrip_by_name : forall root r text,
     write_ini orc incd comd incc root r = Ok text ->
-    (forall sn g, In (sn, g) (ini_groups root) -> group_any g r = true -> section_name_ok sn) ->
+    section_names_ok (ini_groups_own root) r ->
     (forall sn g o, In (sn, g) (ini_groups root) -> In o (grp_opts g) -> opt_ok o r) ->
     exists file,
       read_ini text = Ok file /\
@@ -1825,7 +2050,7 @@ Section RoundTripValues.
   (* Target 3, with all hypotheses on the declarations (root) and the values (r) *)
   Corollary C12_file_roundtrip_values : forall root r text,
     write_ini orc incd comd incc root r = Ok text ->
-    (forall sn g, In (sn, g) (ini_groups root) -> group_any orc incd comd incc g r = true -> section_name_ok sn) ->
+    section_names_ok orc incd comd incc (ini_groups_own root) r ->
     (forall sn g o, In (sn, g) (ini_groups root) -> In o (grp_opts g) -> opt_decl_ok o r) ->
     exists file,
       read_ini text = Ok file /\
@@ -2020,7 +2245,8 @@ Example ex_roundtrip_applies : forall incd comd incc text,
 Proof.
   intros incd comd incc text Hw.
   destruct (C12_file_roundtrip_values ex_orc incd comd incc ex_root ex_rt text Hw
-              (ex_sections_ok incd comd incc) (ex_opts_ok incc)) as (file & Hr & _ & -> & _).
+              (section_names_ok_all_root _ _ _ _ _ _ (ex_sections_ok incd comd incc)) (ex_opts_ok incc))
+    as (file & Hr & _ & -> & _).
   exact Hr.
 Qed.
 
@@ -2070,14 +2296,73 @@ Proof. vm_compute. reflexivity. Qed.
 Example ex_doc_repeat_read : read_ini (concat (map render_wline ex_doc_repeat)) = Ok (doc_file ex_doc_repeat).
 Proof. apply C12_read_rendered, ex_doc_repeat_ok. Qed.
 
-(* ---- the hypotheses are needed *)
-(* options directly in the root command's own group are written under the section
-   name "" which the reader rejects: section_name_ok for every written group *)
-Definition ex_bad_root : command :=
+(* ---- the root command's own group: written without a header, read back into the
+   global section (named "") *)
+Definition ex_own_root : command :=
   mkc (s2l "app") (mkg (s2l "Application Options") [mkopt 5 (s2l "Count") [] (TScalar (KInt I0))] []) [].
-Example ex_bad_root_write : write_ini ex_orc false false false ex_bad_root ex_rt = Ok (lines_text ["[]"; "Count = 42"; ""]%string).
+Example ex_own_root_write : write_ini ex_orc false false false ex_own_root ex_rt = Ok (lines_text ["Count = 42"; ""]%string).
 Proof. vm_compute. reflexivity. Qed.
-Example ex_bad_root_read : read_ini (lines_text ["[]"; "Count = 42"; ""]%string) = Err (EIni 1 (s2l "empty section name")).
+Example ex_own_root_read : read_ini (lines_text ["Count = 42"; ""]%string) = Ok [([], [ent "Count" "42" false 1])]%string.
+Proof. vm_compute. reflexivity. Qed.
+Example ex_own_root_doc : doc_of_ini ex_orc false false false ex_own_root ex_rt = Ok
+  [WEntry (s2l "Count") false [] (s2l "42") false false; WBlank].
+Proof. vm_compute. reflexivity. Qed.
+(* own options of the root followed by a sub-command: the global section, then [add] *)
+Definition ex_own_root_sub : command :=
+  mkc (s2l "app") (mkg (s2l "Application Options") [mkopt 5 (s2l "Count") [] (TScalar (KInt I0))] [])
+      [mkc (s2l "add") (mkg (s2l "Add Options") [mkopt 0 (s2l "Name") [] (TScalar KString)] []) []].
+Example ex_own_root_sub_write : write_ini ex_orc false false false ex_own_root_sub ex_rt
+  = Ok (lines_text ["Count = 42"; ""; "[add]"; "Name = "" hello \""w\"" """; ""]%string).
+Proof. vm_compute. reflexivity. Qed.
+Example ex_own_root_sub_read :
+  read_ini (lines_text ["Count = 42"; ""; "[add]"; "Name = "" hello \""w\"" """; ""]%string)
+  = Ok [([], [ent "Count" "42" false 1]); (s2l "add", [ent "Name" " hello ""w"" " true 4])]%string.
+Proof. vm_compute. reflexivity. Qed.
+(* the round-trip theorem applies to it (section_names_ok: the group with the empty name comes first) *)
+Example ex_own_root_sub_applies : forall incd comd incc text,
+  write_ini ex_orc incd comd incc ex_own_root_sub ex_rt = Ok text ->
+  read_ini text = Ok (doc_file (ini_doc ex_orc incd comd incc ex_own_root_sub ex_rt)).
+Proof.
+  intros incd comd incc text Hw.
+  assert (Hg : ini_groups ex_own_root_sub =
+               [([], mkg (s2l "Application Options") [mkopt 5 (s2l "Count") [] (TScalar (KInt I0))] []);
+                (s2l "add", mkg (s2l "Add Options") [mkopt 0 (s2l "Name") [] (TScalar KString)] [])])
+    by (vm_compute; reflexivity).
+  destruct (C12_file_roundtrip_values ex_orc incd comd incc ex_own_root_sub ex_rt text Hw) as (file & Hr & _ & -> & _).
+  - apply section_names_ok_root; [reflexivity|]. rewrite Hg. cbn [tl].
+    intros sn g [Hin|[]] _. injection Hin as <- <-.
+    unfold section_name_ok. repeat apply conj; closed_check.
+  - rewrite Hg. intros sn g o [Hin|[Hin|[]]] Ho; injection Hin as <- <-; cbn [grp_opts mkg] in Ho;
+      destruct Ho as [<-|[]]; intros _;
+      (split; [unfold ini_name_ok; repeat apply conj; closed_check|]);
+      (split; [closed_check|]); (split; [intros _; closed_check|]).
+    + exact I.
+    + cbv [opt_value_ok o_ty mkopt rt_vals ex_rt ex_vals o_fid elem_value_ok kind_value_ok]. bytes_ok_tac.
+  - exact Hr.
+Qed.
+
+(* ---- the hypotheses are needed *)
+(* only the own group of the parser goes without a header: any other group with the empty
+   section name (here a root group without a short description, following the group Main)
+   is written under the header "[]", which the reader rejects: section_names_ok *)
+Definition ex_late_global : command :=
+  mkc (s2l "app")
+      (mkg (s2l "Application Options") []
+           [mkg (s2l "Main") [mkopt 0 (s2l "Name") [] (TScalar KString)] [];
+            mkg [] [mkopt 5 (s2l "Count") [] (TScalar (KInt I0))] []]) [].
+Example ex_late_global_groups :
+  map (fun q : bool * (str * group) => (fst q, fst (snd q))) (ini_groups_own ex_late_global)
+  = [(true, []); (false, s2l "Main"); (false, [])].
+Proof. vm_compute. reflexivity. Qed.
+Example ex_late_global_write : write_ini ex_orc false false false ex_late_global ex_rt
+  = Ok (lines_text ["[Main]"; "Name = "" hello \""w\"" """; ""; "[]"; "Count = 42"; ""]%string).
+Proof. vm_compute. reflexivity. Qed.
+Example ex_late_global_read :
+  read_ini (lines_text ["[Main]"; "Name = "" hello \""w\"" """; ""; "[]"; "Count = 42"; ""]%string)
+  = Err (EIni 4 (s2l "empty section name")).
+Proof. vm_compute. reflexivity. Qed.
+(* a header with the empty name is rejected by the reader *)
+Example ex_empty_header_read : read_ini (lines_text ["[]"; "Count = 42"; ""]%string) = Err (EIni 1 (s2l "empty section name")).
 Proof. vm_compute. reflexivity. Qed.
 (* a string map key starting with a space is not read back: key_text_ok *)
 Example ex_bad_key :
